@@ -131,7 +131,12 @@ class ColInterp(Interp):
         return self.NOT_HANDLED
 
 
+DESC_WIDTH = [None]      # Table B width of the descriptor when it differs from the width in force (201YYY / 207YYY)
+
+
 def descriptor(kind, width):
+    if DESC_WIDTH[0] is not None and kind != 'string':
+        width = DESC_WIDTH[0]
     unit = {'numeric': 'K', 'codeflag': 'CODE TABLE', 'string': 'CCITT IA5'}[kind]
     return Obj('ElementDescriptor', {'id': 12101 if kind == 'numeric' else (20003 if kind == 'codeflag' else 1015), 'name': 'x', 'unit': unit,
                                      'scale': 0, 'refval': 0, 'nbits': width * (8 if kind == 'string' else 1)})
@@ -368,6 +373,58 @@ def rule_columns(repo, tier='quick', rule_id='C05.R12', only=None):
                         'encoding is not the canonical one, so a second decode / encode round trip changes the bytes' % (column, fields, got, fields2 if fields2 is not None else err2),
                         witness={'column': [repr(v) for v in column]})
         rr.instance('numeric, off-grid values: %d columns (width 0 on raw agreement, quantisation to the nearest grid value, encode / decode / encode fixpoint)' % len(offgrid))
+    # further scaled families, each in both modes and compared with each other: negative values (a rounding written as int(x + 0.5)
+    # is right for positive products only), negative scales (scale_powered < 1, whole-number input), ties, a reference above zero
+    if not only or 'numeric' in only:
+        fi_e = repo.method('Encoder', 'process_numeric_compressed')
+        fams = [
+            (10, -50, 7, [[-0.3], [-0.3, -0.3], [-3.5, -3.5, -3.5], [-0.26, -0.34], [-0.3, None, -0.3], [-1.2, 0.4], [-4.9, -4.9], [0.25, 0.05], [0.15, 0.15], [-0.25, -0.25]]),
+            (0.01, 0, 8, [[1500, 2500], [1500], [1500, 1500], [1500, None, 1500], [0, 25400], [1549, 1551], [100, 100, 300]]),
+            (100, 3, 10, [[0.05, 0.05], [0.045, 0.055], [0.03, 9.9], [0.335], [0.335, 0.335]]),
+        ]
+        nf = 0
+        for sp, rv, w, cols in fams:
+            for column in cols:
+                raws = [None if v is None else int(round(v * sp)) - rv for v in column]
+                nearest = [None if r_ is None else (r_ + rv) / sp for r_ in raws]
+                got_modes = {}
+                for compressed in (True, False):
+                    n += 1
+                    nf += 1
+                    fields, err, refused = encode_column(repo, 'numeric', list(column), w, compressed, scale_powered=sp, refval=rv)
+                    if fields is None:
+                        rr.fail('column:numeric:scaled:encode', fi_e.where, 'the column %r (%d bits, 10**scale = %r, reference %d: raw fields %s) is refused (%s)' % (
+                            column, w, sp, rv, raws, err), witness={'column': [repr(v) for v in column], 'scale_powered': sp})
+                        continue
+                    got, derr = decode_fields(repo, 'numeric', fields, len(column), w, compressed, scale_powered=sp, refval=rv)
+                    got_modes[compressed] = got
+                    if got is None or not same(got, nearest):
+                        rr.fail('column:numeric:scaled', fi_e.where, 'the column %r (%d bits, 10**scale = %r, reference %d) written %s as %s reads back as %s; every value '
+                                'reads back as the nearest multiple of the precision, %r (raw fields %s)' % (
+                                    column, w, sp, rv, 'compressed' if compressed else 'uncompressed', fields, got if got is not None else derr, nearest, raws),
+                                witness={'column': [repr(v) for v in column], 'scale_powered': sp, 'compressed': compressed})
+                if len(got_modes) == 2 and got_modes[True] is not None and got_modes[False] is not None and not same(got_modes[True], got_modes[False]):
+                    rr.fail('column:numeric:scaled:modes-differ', fi_e.where, 'the column %r decodes to %r when written compressed and to %r when written uncompressed' % (
+                        column, got_modes[True], got_modes[False]), witness={'column': [repr(v) for v in column]})
+        rr.instance('numeric, negative values / negative scale / ties / positive reference: %d round trips, compressed against uncompressed' % nf)
+        # the all-missing pattern has the width in force, not the Table B width of the descriptor (201YYY / 207YYY widen the field)
+        for kind, dw, w in (('numeric', 3, 5), ('numeric', 4, 14), ('codeflag', 3, 3)):
+            DESC_WIDTH[0] = dw
+            try:
+                for column in ([None, None], [None], [None, 1], [2, None, 2]):
+                    n += 1
+                    fields, err, refused = encode_column(repo, kind, list(column), w, True)
+                    if fields is None:
+                        rr.fail('column:%s:width-in-force:encode' % kind, fi_e.where, 'the %s column %r with a field of %d bits (Table B width %d) is refused (%s)' % (kind, column, w, dw, err))
+                        continue
+                    got, derr = decode_fields(repo, kind, fields, len(column), w, True)
+                    if got is None or not same(got, list(column)) or fields[0][1] != w:
+                        rr.fail('column:%s:width-in-force' % kind, fi_e.where, 'the %s column %r of a field that is %d bits wide at this point of the template (Table B width %d) is '
+                                'written as %s and reads back as %s; missing is all ones of the width in force' % (kind, column, w, dw, fields, got if got is not None else derr),
+                                witness={'column': [repr(v) for v in column], 'width': w, 'table_b_width': dw})
+            finally:
+                DESC_WIDTH[0] = None
+        rr.instance('columns of a field whose width in force differs from the Table B width: 12 round trips')
     # the decoder reads every legal difference width, not only the minimal one
     if not only or 'numeric' in only or 'codeflag' in only:
         for kind in ('numeric', 'codeflag'):
